@@ -32,7 +32,7 @@ func C06(r *core.Run) {
 		"(R06.3) both bounds of the part index are guarded (compiler-reported bounds sites of the uploader discharged); " +
 		"(R06.4) every listed part is compared with the stored part's ETag and a nil slot, unequal/absent ⇒ InvalidPart; " +
 		"(R06.5) abort cannot reach any Backend method; (R06.6) a part is read completely and length-checked before any lock or slot is touched, stored at its own number with the MD5 of that body; " +
-		"(R06.7) the assembled body is appended only from the listed parts' bodies, stored with the initiation metadata, and the ETag is built from the part ETags and the part count."
+		"(R06.7) the assembled body is appended only from the listed parts' bodies, stored with the initiation metadata, and the ETag is built from the part ETags and the part count. (R06.8) a part's ETag is stored with its body, and lookup and removal of an upload are one critical section of uploader.mu."
 	r.NotDecided = "byte equality of the concatenation, 'most recent upload of each part' as a value statement (follows from overwrite-at-index), strictness of ascending order for duplicate numbers"
 	ctx := oblig.NewCtx(r.P)
 	installNonNilHook(r, ctx)
